@@ -3,7 +3,7 @@ import Cfdm.Lemmas.ConstructsConvert
 C02 — `Field.__getitem__`: the domain axes are resized first and the constructs that span them are
 re-inserted afterwards, so the invariant does not hold in between.  What holds throughout is the
 invariant of the *masked* state (`maskSt`: without the recorded axes of the constructs that span a data
-axis, and without the field's data and data axes); every re-inserted construct passes the (patched)
+axis, and without the field's data and data axes); every re-inserted construct passes the (HEAD)
 axes check of `set_construct`, and the final `set_data` checks the field's data axes.
 -/
 namespace Cfdm.Constructs
@@ -227,7 +227,7 @@ theorem core_mask {s : St} (h : Core s) (A : List Key) : Core (maskSt A s) := by
 
 
 
-/-- everything an accepted `set_construct(c, key=k)` without axes does (patched code) -/
+/-- everything an accepted `set_construct(c, key=k)` without axes does (code at HEAD) -/
 theorem setConstruct_ok_full {f f' : St} {view : Bool} {t : CType} {c : Con} {k : Key} {o : Option Key}
     (h : setConstruct true f view t c (some k) none = (f', .ok o)) :
     (∀ q, f'.cons.get q = if q = (t, k) then some c else f.cons.get q) ∧
